@@ -12,7 +12,7 @@ Check mv_reopen_after_clean_sync :
 Print Assumptions mv_reopen_after_clean_sync.
 
 (* for ANY byte string: if open accepts it, all len elements lie inside the file (never a byte the file does not
-   contain, hence no fault), and element i is the little-endian value of the file bytes at 64 + i*es *)
+   contain, hence no fault), and element i is the little-endian value of the file bytes at 80 + i*es *)
 Theorem mv_open_inside_file :
   forall es f n xs, mv_open es f = Some (n, xs) ->
     mv_touched_end es n <= nlen f /\ length xs = N.to_nat n.
@@ -24,11 +24,11 @@ Print Assumptions mv_open_inside_file.
 
 Theorem mv_open_elements :
   forall es f n xs i, mv_open es f = Some (n, xs) -> (i < N.to_nat n)%nat ->
-    nth_error xs i = Some (field f (64 + i * N.to_nat es) (N.to_nat es)).
+    nth_error xs i = Some (field f (80 + i * N.to_nat es) (N.to_nat es)).
 Proof. exact mv_open_elements_proof. Qed.
 Check mv_open_elements :
   forall es f n xs i, mv_open es f = Some (n, xs) -> (i < N.to_nat n)%nat ->
-    nth_error xs i = Some (field f (64 + i * N.to_nat es) (N.to_nat es)).
+    nth_error xs i = Some (field f (80 + i * N.to_nat es) (N.to_nat es)).
 Print Assumptions mv_open_elements.
 
 (* a synced file cut short at any byte is refused *)
